@@ -211,46 +211,46 @@ const (
 // documents' [IGNORE]/[REJECT] tags, read validator by validator against this code base.
 var verdictTable = map[string]string{
 	// timing / availability: an honest sender can fail these through timing alone
-	"Seen*":             clsTiming,
-	"ByBlock":           clsTiming,
-	"ByBlockSlot":       clsTiming,
-	"BySlot":            clsTiming,
-	"ByStateRoot":       clsTiming,
-	"CheckSlotSpan":     clsTiming,
-	"SlotAfter":         clsTiming,
-	"InSubtree.unknown": clsTiming,
-	"Towards":           clsTiming,
-	"EpochsContext":     clsTiming,
-	"State":             clsTiming,
-	"Head":              clsTiming,
-	"HeadRef":           clsTiming,
+	"Seen*":                    clsTiming,
+	"ByBlock":                  clsTiming,
+	"ByBlockSlot":              clsTiming,
+	"BySlot":                   clsTiming,
+	"ByStateRoot":              clsTiming,
+	"CheckSlotSpan":            clsTiming,
+	"SlotAfter":                clsTiming,
+	"InSubtree.unknown":        clsTiming,
+	"Towards":                  clsTiming,
+	"EpochsContext":            clsTiming,
+	"State":                    clsTiming,
+	"Head":                     clsTiming,
+	"HeadRef":                  clsTiming,
 	"AttesterSlashableAllSeen": clsTiming,
 	// validity: only a faulty or malicious sender fails these
-	"Verify":                          clsValidity,
-	"FastAggregateVerify":             clsValidity,
-	"Eth2FastAggregateVerify":         clsValidity,
-	"AggregateVerify":                 clsValidity,
-	"VerifySignature":                 clsValidity,
-	"IsBadBlock":                      clsValidity,
-	"ConvertToIndexed":                clsValidity,
-	"ValidateIndexedAttestation":      clsValidity,
-	"ValidateVoluntaryExit":           clsValidity,
-	"ValidateProposerSlashing":        clsValidity,
-	"ValidateProposerSlashingNoSignature": clsValidity,
-	"ValidateAttesterSlashing":        clsValidity,
-	"ValidateAttesterSlashingNoSignature": clsValidity,
+	"Verify":                                clsValidity,
+	"FastAggregateVerify":                   clsValidity,
+	"Eth2FastAggregateVerify":               clsValidity,
+	"AggregateVerify":                       clsValidity,
+	"VerifySignature":                       clsValidity,
+	"IsBadBlock":                            clsValidity,
+	"ConvertToIndexed":                      clsValidity,
+	"ValidateIndexedAttestation":            clsValidity,
+	"ValidateVoluntaryExit":                 clsValidity,
+	"ValidateProposerSlashing":              clsValidity,
+	"ValidateProposerSlashingNoSignature":   clsValidity,
+	"ValidateAttesterSlashing":              clsValidity,
+	"ValidateAttesterSlashingNoSignature":   clsValidity,
 	"ValidateAggregateSelectionProof.valid": clsValidity,
-	"IsSyncCommitteeAggregator":       clsValidity,
-	"IsSlashableAttestationData":      clsValidity,
-	"ValidateIndexedAttestationIndicesSet": clsValidity,
-	"ValidateSyncAggregatorSelectionProof": clsValidity,
-	"InSubnet":                        clsValidity,
-	"Signature":                       clsValidity, // decoding the message's own signature bytes
-	"OnesCount":                       clsValidity,
-	"BitLen":                          clsValidity,
-	"SingleParticipant":               clsValidity,
-	"ComputeSubnetForAttestation":     clsValidity,
-	"ComputeSubnetsForSyncCommittee":  clsValidity,
+	"IsSyncCommitteeAggregator":             clsValidity,
+	"IsSlashableAttestationData":            clsValidity,
+	"ValidateIndexedAttestationIndicesSet":  clsValidity,
+	"ValidateSyncAggregatorSelectionProof":  clsValidity,
+	"InSubnet":                              clsValidity,
+	"Signature":                             clsValidity, // decoding the message's own signature bytes
+	"OnesCount":                             clsValidity,
+	"BitLen":                                clsValidity,
+	"SingleParticipant":                     clsValidity,
+	"ComputeSubnetForAttestation":           clsValidity,
+	"ComputeSubnetsForSyncCommittee":        clsValidity,
 	// internal lookups after the message's own fields were validated: the p2p spec is silent; either refusal
 	"InSubtree.in":                        clsInternal,
 	"GetBeaconCommittee":                  clsInternal,
